@@ -36,8 +36,17 @@ def gen_directive(r):
     cont = r.chance(25)
 
     def bs(a, b):
-        """a <backslash-newline> b"""
-        return [a + "\\", b]
+        """a <backslash-newline> b, the second part possibly split again (up to 4 physical lines)"""
+        out = [a + "\\"]
+        words = b.split(" ")
+        extra = r.n(0, 2)
+        while extra and len(words) > 1:
+            k = r.n(1, len(words) - 1)
+            out.append(" ".join(words[:k]) + " \\")
+            words = words[k:]
+            extra -= 1
+        out.append(" ".join(words))
+        return out
     if k == "if":
         a, b = r.pick([("defined(X) &&", " Y > 1"), ("X ==", " 2"), ("!defined(FOO)", " || BAR")])
         body = a + b
